@@ -624,6 +624,20 @@ def _builtin_tables(h, scopes):
                ", ".join(f"({_lean_str(k)}, {_lean_str(v)})" for k, v in wp) + "]\n")
     return out
 
+def _portable_names(h, consts):
+    """constants.rs is_portable_readonly_variable_name: the names it refuses"""
+    src = _strip_comments(h.read("yash-env/src/variable/constants.rs")).split("#[cfg(test)]")[0]
+    body = h.item_body(src, r"pub\s+fn\s+is_portable_readonly_variable_name\b[^{]*?\)\s*->\s*bool\s*", "constants.rs fn is_portable_readonly_variable_name")
+    m = re.fullmatch(r"\s*!\s*matches!\(\s*name\s*,\s*([^)]*)\)\s*", body)
+    if not m:
+        h.fail("variable: constants.rs is_portable_readonly_variable_name: body is not `!matches!(name, A | B | ..)`")
+    names = sorted(_resolve(h, consts, t, "is_portable_readonly_variable_name") for t in m.group(1).split("|") if t.strip())
+    pn = h.item_body(src, r"pub\s+fn\s+is_portable_variable_name\b[^{]*?\)\s*->\s*bool\s*", "constants.rs fn is_portable_variable_name")
+    if re.sub(r"\s+", "", pn) != "name.starts_with(|c:char|!c.is_ascii_digit())&&name.chars().all(|c|c.is_ascii_alphanumeric()||c=='_')":
+        h.fail("variable: constants.rs is_portable_variable_name has a shape I do not understand")
+    return names
+
+
 def _cd_getopts(h, consts, scopes):
     """the variable writes of cd (cd.rs main, cd/assign.rs) and getopts (getopts/report.rs)"""
     cd = _strip_comments(h.read("yash-builtin/src/cd.rs")).split("#[cfg(test)]")[0]
@@ -731,6 +745,9 @@ def variable_tables(h):
                ",\n".join(f"  ({_lean_str(n)}, {b(p)}, {b(e)})" for n, p, e in cmds) + "]\n")
     out.extend(_builtin_tables(h, scopes))
     out.extend(_cd_getopts(h, consts, scopes))
+    out.append("/-- session 4 — constants.rs `is_portable_readonly_variable_name`: the names it refuses (sorted); "
+               "`is_portable_variable_name` is checked to be `not empty, no leading ASCII digit, ASCII alphanumerics and _` -/")
+    out.append("def nonPortableReadonlyNames : List String := [" + ", ".join(_lean_str(x) for x in _portable_names(h, consts)) + "]\n")
     h.write("VariableTables", "\n".join(out))
 
 
